@@ -97,7 +97,7 @@ def _metadir(label):
 def tlc(module, cfg, workers=1, timeout=600, env=None, heap="4g", extra=(), simulate=None, coverage=False):
     md = _metadir(module)
     cmd = ["java", "-XX:+UseParallelGC", "-Xmx" + heap, "-cp", TLC_CP, "tlc2.TLC", "-workers", str(workers), "-metadir", md,
-           "-config", os.path.join(SPEC, cfg)]
+           "-noGenerateSpecTE", "-config", os.path.join(SPEC, cfg)]
     if simulate:
         cmd += ["-simulate", simulate]
     if coverage:
